@@ -51,7 +51,11 @@ def main():
         for ln in miss:
             print('   %5d  %s' % (ln, src[ln - 1].strip()[:110]))
     print('== rbql-js (functions / blocks with count 0)')
+    # one bitmap per source file, OR-ed over the processes: within ONE process report the ranges are nested (apply outer first, an inner
+    # range overrides); a range with count 0 in one process says nothing about another process, where the same text may have run
+    # without being listed as a range of its own (V8 lists a block only where its count differs from the enclosing one)
     cov = {}
+    texts = {}
     for f in glob.glob(os.path.join(OUT, 'v8', '*.json')):
         try:
             d = json.load(open(f))
@@ -61,18 +65,23 @@ def main():
             url = sc['url'].replace('file://', '')
             if not url.startswith(os.path.join(REPO, 'rbql-js')):
                 continue
-            c = cov.setdefault(url, {})
-            for fn in sc['functions']:
-                for rg in fn['ranges']:
-                    k = (rg['startOffset'], rg['endOffset'])
-                    c[k] = c.get(k, 0) + rg['count']
+            if url not in texts:
+                texts[url] = open(url, encoding='utf-8').read()
+                cov[url] = bytearray(len(texts[url]))
+            n = len(texts[url])
+            one = bytearray(n)
+            ranges = [(rg['startOffset'], rg['endOffset'], rg['count']) for fn in sc['functions'] for rg in fn['ranges']]
+            for a, b, cnt in sorted(ranges, key=lambda x: (x[0], -x[1])):
+                v = 1 if cnt > 0 else 0
+                one[a:min(b, n)] = bytes([v]) * (min(b, n) - a)
+            total = cov[url]
+            for i in range(n):
+                if one[i]:
+                    total[i] = 1
     for url in sorted(cov):
-        text = open(url, encoding='utf-8').read()
+        text = texts[url]
         n = len(text)
-        covered = bytearray(n)          # 1 = executed at least once; ranges are nested: apply outer first
-        for (a, b), cnt in sorted(cov[url].items(), key=lambda kv: (kv[0][0], -kv[0][1])):
-            for i in range(a, min(b, n)):
-                covered[i] = 1 if cnt > 0 else 0
+        covered = cov[url]
         miss = []
         pos = 0
         for ln, line in enumerate(text.split('\n'), 1):
